@@ -318,9 +318,9 @@ def run_property(prop, subs, tier, workers=None, only=None):
     fails = collections.OrderedDict()
     counts = collections.Counter()
     results = []
-    if workers > 1 and len(tasks) > 1:
+    if not os.environ.get('VERIF_SERIAL') and len(tasks) > 0:
         ctxm = mp.get_context('fork')
-        with ctxm.Pool(workers) as pool:
+        with ctxm.Pool(workers, maxtasksperchild=1) as pool:   # every chunk starts from the import-time state of the library
             for r in pool.imap_unordered(_work, tasks, chunksize=1):
                 results.append(r)
     else:
